@@ -14,10 +14,6 @@ import (
 	"net/url"
 	"sort"
 	"strings"
-
-	"github.com/spf13/viper"
-
-	"github.com/atlassian/gostatsd/pkg/backends/datadog"
 )
 
 type datadogCfg struct {
@@ -156,7 +152,7 @@ func runDatadog(e *env, cs *caseRef, w *workload, rng *rand.Rand) {
 		c.MPB = 21 + rng.Intn(10) // just above the client's look-ahead of 20
 	}
 	cs.Config = c
-	v := viper.New()
+	v := newCfg()
 	v.Set("datadog.api_endpoint", e.sink.url())
 	v.Set("datadog.api_key", "k3y")
 	if c.Compress != nil {
@@ -167,7 +163,7 @@ func runDatadog(e *env, cs *caseRef, w *workload, rng *rand.Rand) {
 	}
 	v.Set("flush-interval", "1s")
 	setDisabled(v, w.Disabled)
-	be, err := datadog.NewClientFromViper(v, e.logger, e.pool)
+	be, err := e.initBackend(cs, "datadog", v, rng)
 	if err != nil {
 		e.r.Inconclusive("datadog:factory-error")
 		return
